@@ -298,3 +298,11 @@ Theorem C17_header_chain_accepts_linked : forall (hash256 : bytes -> bytes) hs l
   headers_valid_loop hash256 hs (Some lb) = Ok true.
 Proof. exact headers_linked_valid. Qed.
 Print Assumptions C17_header_chain_accepts_linked.
+
+(* The constants written in the model are the constants of the SOURCE: coq/Generated/SrcConsts.v is regenerated
+   from /repo/buidl/*.py by harness/gen_coq_consts.py on every run; the statements are spelled out in
+   Proofs/ConstsTie.v (pow_is_source_stmt). *)
+From V Require Proofs.ConstsTie.
+Theorem C17_constants_match_source : ConstsTie.pow_is_source_stmt.
+Proof. exact ConstsTie.pow_is_source. Qed.
+Print Assumptions C17_constants_match_source.
